@@ -12,7 +12,7 @@ PROPS = {
                 "boundary and random contents, both orders; thorough adds the exhaustive u8/u16 sweeps. distinct = distinct "
                 "request line; non-trivial = the read succeeds or fails with a payload-carrying error",
     },
-    "C02": {"streams": [S("parse", 3000, 20000)], "projection": "full"},
+    "C02": {"streams": [S("parse", 3000, 20000), S("acc", 1, 1)], "projection": "full"},
     "C09": {"streams": [S("table", 2000, 8000)], "projection": "full"},
     "C15": {"streams": [S("strtab", 2000, 20000), S("utf8", 500, 5000)], "projection": "full"},
     "C10": {"streams": [S("ident", 800, 4000)], "projection": "full"},
@@ -59,6 +59,17 @@ LEVEL_TEXT["C09"] = {
             "finished even though a failed parse moves the cursor. Entry programs are regenerated from the ParseAt bodies each run.",
     "note": COMMON_NOTE + " ParsingTable/ParsingIterator control flow is hand-modelled (validated differentially on lengths 0..k*size+size-1, indices near usize::MAX).",
     "technique": "Lean 4 proof over translator-generated entry programs + differential correspondence + chunk-decode oracle",
+}
+
+LEVEL_TEXT["C02"] = {
+    "text": "Every impl ParseAt body (and FileHeader::parse_tail) is translated on each run into a straight-line program; kernel decide shows "
+            "each of the 38 (structure, class) programs equals the hand-vendored ABI layout (field order, widths, signedness, widening, "
+            "r_info splitters, version guards) and that size_for equals the ABI size. Generic theorems over all buffers/offsets/orders: a "
+            "program that fits yields exactly the values decoded at successive ABI offsets and consumes exactly its size; zero-/sign-"
+            "extension are exact; r_info (ELF32/64), st_info, st_other, version index/hidden and is_undefined split exactly as the ABI macros "
+            "for every value. The translator and interpreter are validated against the compiled parsers on ABI-encoded field values.",
+    "note": COMMON_NOTE + " Reference layouts in Ref/AbiLayouts.lean are transcribed by hand from the gABI/GNU documents.",
+    "technique": "Lean 4 proof over translator-generated parse programs (kernel decide vs ABI reference) + ABI-encoder round-trip oracle",
 }
 
 # every property not yet claimed is listed here with the reason; entries disappear as checks land
